@@ -39,7 +39,7 @@ PLAN["C12"] = {
 
 _KERNEL_FUNCS = ["table_size", "num_vars_mask", "fill_one", "fill_zero", "not_inplace", "get_bit", "set_bit", "unset_bit",
                  "flip_inplace", "swap_inplace", "swap_adjacent_inplace", "cofactor0_inplace", "cofactor1_inplace",
-                 "from_cofactors_inplace", "next_inplace", "fill_random", "hex_str_size"]
+                 "from_cofactors_inplace", "next_inplace", "fill_random", "hex_str_size", "and_inplace", "or_inplace", "xor_inplace"]
 
 _VERUS_ASSUMED = [
     "Verus proofs are for 64-bit targets (global size_of usize == 8) and require num_vars < 64",
@@ -76,10 +76,10 @@ PLAN["C03"] = {
 
 PLAN["C01"] = {
     "level": "proof",
-    "technique": "Verus contract on the real not_inplace/num_vars_mask (all n < 64, all lengths) + Kani contract triples on the real and/or/xor kernels per length and on every syntactic operator form of Lut/LutN per size, against the Boolean operation on words and on a symbolic assignment",
-    "level_text": "NOT is proved for every n and table length by Verus (word- and assignment-level postcondition, wf established). AND/OR/XOR kernels are proved per table length 1..256 (every length a table of <= 14 variables can have), and all 28 syntactic forms (named, in-place, 4 operator-trait forms, 2 compound-assignment forms; NOT: 4 forms) are proved per type LutN N=0..12 and Lut n=0..14 by fully unwound Kani triples: forms agree, result == word-wise and assignment-wise Boolean operation, operands unchanged, result well-formed with n variables.",
-    "level_note": "Trusted: Verus/Z3/vstd, Kani/CBMC, rustc, extraction rules of DESIGN 2.3. and/or/xor_inplace are outside Verus's subset (`*t1 &= t2` with t2: &u64), so they are complete per length, not unbounded.",
-    "verus_units": ["kernels"],
+    "technique": "Verus contracts on the real not_inplace/and_inplace/or_inplace/xor_inplace/num_vars_mask (all n < 64, all table lengths; word- and assignment-level lemmas) + Kani contract triples on the same kernels per length and on every syntactic operator form of Lut/LutN per size, against the Boolean operation on words and on a symbolic assignment",
+    "level_text": "NOT, AND, OR, XOR kernels are proved for every table length by Verus (word-level postconditions; lemma_logic_bits / lemma_not_bits give the assignment-level statement, lemma_logic_wf the invariant); the same kernels are also proved per table length 1..256 by Kani, and all 28 syntactic forms (named, in-place, 4 operator-trait forms, 2 compound-assignment forms; NOT: 4 forms) are proved per type LutN N=0..12 and Lut n=0..14 by fully unwound Kani triples: forms agree, result == word-wise and assignment-wise Boolean operation, operands unchanged, result well-formed with n variables.",
+    "level_note": "Trusted: Verus/Z3/vstd, Kani/CBMC, rustc, extraction rules of DESIGN 2.3 (rule 6: `*t1 OP= t2` with t2: &u64 is rewritten to `*t1 OP= *t2`, i.e. std's forwarding impl `OPAssign<&u64> for u64` is trusted).",
+    "verus_units": ["kernels", "logic"],
     "kani_units": ["spec_ops.rs", "c01_logic.rs"],
     "kani_filters": {"quick": ["c01q_"], "thorough": ["c01t_"]},
     "kani_scope": {r"_k_": "complete(kernel, fixed table length: all contents)", r"_s_": "complete(LutN, fixed N: all tables, all assignments)", r"_d_": "complete(Lut, fixed n: all tables, all assignments)"},
@@ -89,13 +89,16 @@ PLAN["C01"] = {
                     "Not/BitAnd/BitOr/BitXor/BitAndAssign/BitOrAssign/BitXorAssign impls of Lut and StaticLut (value and reference forms)"],
     "twins": {
         "not_inplace": {"filters": ["c01q_k_not", "c01t_k_not"], "complete": True},
+        "and_inplace": {"filters": ["c01q_k_and", "c01t_k_and"], "complete": True},
+        "or_inplace": {"filters": ["c01q_k_or", "c01t_k_or"], "complete": True},
+        "xor_inplace": {"filters": ["c01q_k_xor", "c01t_k_xor"], "complete": True},
         "num_vars_mask": {"filters": ["c01q_k_not", "c01t_k_not"], "complete": True},
     },
     "assumptions": _VERUS_ASSUMED + [
         "Kani triples fix the size per harness: LutN 0..12, Lut 0..14, kernel lengths 1..256 (the property's range)",
         "size-mismatch behaviour of the binary forms is decided under C17",
     ],
-    "scope_note": "Verus: not_inplace unbounded. Kani: complete per size for LutN 0..12, Lut 0..14, kernel lengths 1,2,4,...,256.",
+    "scope_note": "Verus: not/and/or/xor_inplace unbounded. Kani: complete per size for LutN 0..12, Lut 0..14, kernel lengths 1,2,4,...,256.",
 }
 
 
@@ -150,7 +153,7 @@ PLAN["C17"] = {
     "technique": "Kani contract triples {invalid argument} call {no execution returns; every failing check is a profile-independent assert/bounds check} on every index-, assignment-, operand- and block-taking public method of Lut and LutN per size, with the invalid argument symbolic over the whole usize range; Verus verification of the kernels in both profile variants (debug_assert lines kept / deleted) for the valid-argument half",
     "level_text": "For every listed method and size n = 0..8 of both types, Kani proves that with ANY out-of-range index / assignment / mismatched operand / wrong block length (symbolic over all of usize) no execution returns from the call, and that the only failing checks are always-on assert!/assert_eq!/slice checks (a failing debug_assert or overflow check, which exist only in debug builds, fails the obligation). For valid arguments, Verus proves each kernel free of overflow and assertion failure against the same contract in the debug variant (debug_assert lines are obligations) and the release variant (lines deleted), and the Kani triples of C01/C03/C08/C11 report no overflow.",
     "level_note": "Trusted: Kani/CBMC, Verus/Z3/vstd, rustc. Reduction (paper, checked syntactically each run): the only profile-dependent constructs in the crate are debug_assert* and arithmetic-overflow checks. Kani follows a failing debug_assert no further, so a later always-on check that would also stop a release build is not credited.",
-    "verus_units": ["kernels"],
+    "verus_units": ["kernels", "logic"],
     "kani_units": ["spec_ops.rs", "c17_panics.rs"],
     "kani_filters": {"quick": ["c17q_"], "thorough": ["c17t_"]},
     "panic_re": r"c17[qt]_p_",
@@ -197,7 +200,7 @@ PLAN["C02"] = {
     "technique": "induction over the public API on the representation invariant wf: Verus contracts on the real kernels (wf established by fill_one/zero/random, preserved by not/set_bit/unset_bit/flip/swap/swap_adjacent/cofactor0/1/from_cofactors/next for all n < 64) + machine-checked extensionality lemma; Kani contract triples per size for the constructors, logic operators, wrappers and conversions that Verus cannot take, and for == / cmp against an explicit distinguishing assignment",
     "level_text": "wf (block count = max(1,2^n/64), no bit >= 2^n) is proved by Verus to be established/preserved by every slice kernel it can take, for every n < 64 and every in-range argument, and lemma_ext proves that two wf tables agreeing on every assignment are identical word for word. Kani proves per size (all sizes 0..6 where the invariant has content, with symbolic indices; multi-word sizes to 12/14) that every constructor establishes wf over its whole argument domain, that the logic operators, single-bit mutators, transforms, iterator items and conversions preserve it, and that ==, cmp==Equal and equality of all values coincide (a distinguishing assignment is computed when the blocks differ).",
     "level_note": "Trusted: derived PartialEq/Eq/Hash hash and compare exactly the stored (num_vars, words); Verus/Z3/vstd, Kani/CBMC, rustc. The parser (from_hex_string) is covered under C09 (bounded); canonization outputs are copies of tables produced by the kernels above (frame of the *_ind loops, C04).",
-    "verus_units": ["kernels", "theory"],
+    "verus_units": ["kernels", "logic", "theory"],
     "kani_units": ["spec_ops.rs", "c02_repr.rs", "c09_text.rs", "c08_lut.rs", "c10_agree.rs"],
     "kani_filters": {"quick": ["c02q_", "c09q_parse_n", "c08q_d_orddiff", "c10q_convmm"], "thorough": ["c02t_", "c08t_d_orddiff", "c10t_convmm"]},
     "kani_scope": {r"c09q_parse": "bounded(parser: this n and string length, every ASCII string)", r"orddiff": "complete(two Luts of these two different sizes: all contents; never Equal, never ==)",
